@@ -138,7 +138,7 @@ func (in *inst) Key() string {
 		ks = append(ks, fmt.Sprintf("%s=%s:%v", k, e.id.name, e.valid))
 	}
 	sort.Strings(ks)
-	return strings.Join(ks, " ") + "\n" + in.rm.VerifDump(false)
+	return strings.Join(ks, " ") + "\n" + in.rm.VerifDumpFull()
 }
 
 var menu []probe
